@@ -38,7 +38,9 @@ MANIFEST = dict(
     text="Theorems in lean/PdshVerif/Props/C14.lean about the model in lean/PdshVerif/Hostlist/Print.lean (spec: "
          "PrintSpec.lean); the model is executed against the real hostlist_ranged_string / hostlist_deranged_string "
          "(harness/hl_harness.c + hl_print_ops.h) on generated lists for every n from 1 to text length + 2 and against "
-         "`pdsh -q/-Q -w` of a scratch build near the 1024-byte boundary; the real code is also judged by the property "
+         "`pdsh -q/-Q -w` and `pdsh -w -^file` of a scratch build AND of an AddressSanitizer build of the same tree near the "
+         "1024 / 4095 / 8191-byte boundaries, and hostlist_shift_range / hostlist_pop_range until NULL (fixed stack buffers "
+         "inside hostlist.c) against the model; the real code is also judged by the property "
          "text restated on observables, which yields the failing (list, n) as replay. The form of the truncation test "
          "of hostlist_deranged_string (D14) and of list_push_hostlist's retry condition (D2/F14-XLOOP) is probed on every "
          "run and the model runs in those variants; the parser model used for the round trip runs in the variant probed "
@@ -94,6 +96,11 @@ def run(ctx):
             for s in FIXED + load_corpus():
                 cases.append({"origin": "corpus", "ops": ["create " + hx(s)], "desc": s[:200].decode("latin1")})
             cases.append({"origin": "corpus", "ops": ["create " + hx(b"foo[1-2]-[0-1]")], "desc": "foo[1-2]-[0-1]"})
+            # ONE bracket group whose text has 1022..1025 bytes: the fixed buffers of hostlist_shift_range (1024) and
+            # hostlist_pop_range / hostlist_next_range (MAXHOSTRANGELEN) at their boundary
+            for plen in (21, 22, 23, 24):
+                s = b"g" * plen + b"[" + b",".join(b"%d" % k for k in range(101, 601, 2)) + b"]"
+                cases.append({"origin": "corpus", "ops": ["create " + hx(s)], "desc": "one group of %d bytes" % len(s)})
             cases.extend(small_scope(2 if ctx.quick() else 3))
             if not ctx.quick():
                 from vlib.printcheck import SHAPES
@@ -236,6 +243,18 @@ def sweep_lists(ctx, pr, cases, exact, cov, dist):
                         ctx.offender("%s-asan:%s%s" % (kname(kind), cls, fill),
                                      "hostlist_%s_string into an exact-size heap buffer of %s bytes: ASan reports %s" %
                                      (kname(kind), nn, cls), dict(case, kind=kname(kind), n=nn))
+        # hostlist_shift_range / hostlist_pop_range until NULL (fixed stack buffers inside hostlist.c, under ASan)
+        for which, fn in (("s", "hostlist_shift_range"), ("p", "hostlist_pop_range")):
+            ir, mr = names["pranges " + which], mnames["pranges " + which]
+            dist["range-calls"] = dist.get("range-calls", 0) + (0 if ir == "none" else ir.count("|") + 1)
+            if ir != mr:
+                ctx.disagreement("print model vs hostlist.c (%s until NULL)" % fn, "impl `%s` model `%s`" % (ir[:200], mr[:200]), case)
+            if ir != "none":
+                for piece in ir.split("|"):
+                    if len(unhx(piece)) >= 1023:
+                        bd = dist.setdefault("boundary", {})
+                        key = "%s, group text cut at its fixed buffer" % fn
+                        bd[key] = bd.get(key, 0) + 1
         if isx:
             dist["exact-mode-lists"] += 1
         if len(recs) >= 2 and (b"[" in texts.get("r", b"") or sum(r.count() for r in recs) >= 3):
